@@ -55,3 +55,28 @@ func (OnceMonitor) OnWrite(x *Ctx, w *Write) {
 		}
 	}
 }
+
+// ContextTracker records history facts other monitors use to tell contexts apart (it reports nothing itself).
+// It runs first in every plan.
+type ContextTracker struct{ BaseMonitor }
+
+func (ContextTracker) ID() string { return "context" }
+
+func (ContextTracker) OnWrite(x *Ctx, w *Write) {
+	sc := x.Sc
+	if w.Key.GVR.Resource == "batchreleases" && w.Verb == "create" {
+		if v := ViewWorkload(x.W, sc); v != nil {
+			x.Mon["ctx.brRev"] = shortHash(v.UpdateRev)
+		}
+		delete(x.Mon, "ctx.supersededKnob")
+	}
+	// the BatchRelease controller raises the exposure although the workload's revision is no longer the one the
+	// BatchRelease was created for (the release was superseded and the Rollout has not replaced it yet)
+	if w.Actor == "B" && w.Verb == "update" && !w.Status && w.Key.GVR.Resource == workloadResource(sc) && w.Before != nil && w.After != nil {
+		if exposureOf(sc, w.After) > exposureOf(sc, w.Before) && exposureOf(sc, w.Before) >= 0 {
+			if v := ViewWorkload(x.W, sc); v != nil && x.Mon["ctx.brRev"] != "" && x.Mon["ctx.brRev"] != shortHash(v.UpdateRev) {
+				x.Mon["ctx.supersededKnob"] = "1"
+			}
+		}
+	}
+}
